@@ -701,7 +701,7 @@ def split(s):
     '''
     p = _parser(s)
     for t in p.tok:
-        if t.ttype == tokenizer.tokentype.WORD:
+        if t.ttype in (tokenizer.tokentype.WORD, tokenizer.tokentype.ASSIGNMENT_WORD):
             quoted = bool(t.flags & flags.word.QUOTED)
             doublequoted = quoted and t.value[0] == '"'
             parts, expandedword = subst._expandwordinternal(p, t, 0,
